@@ -6,6 +6,7 @@ import Proofs.TwlRefines
 import Proofs.SubRefines
 import Proofs.PyFileRefines
 import Proofs.Run
+import Proofs.CtrSeekForgets
 namespace Pyctr.C12
 open Pyctr
 variable {σ : Type} {F : FileOps σ} {inv : σ → Prop} {abs : σ → AFile} (E : Bytes → Bytes)
@@ -55,5 +56,19 @@ theorem C12_gap_witness :
     let s1 := ((CtrIO.ops PyFile.ops E).run s0 [.seek 4 0, .write [0xAA]]).2
     (CtrIO.absCtr E PyFile.abs s1).content ≠
       (AFile.ops.run (CtrIO.absCtr E PyFile.abs s0) [.seek 4 0, .write [0xAA]]).2.content := by decide
+
+
+/-- **sharing the underlying file object is safe under "seek before the next call"**: after the wrapper's own `seek` its
+    state is a function of the inner file's state and the counter alone - whatever cipher object it had cached, in whichever
+    direction, whoever moved the inner file in between (its owner, a second wrapper on it) - and a state without a cached
+    cipher reads and writes the same whatever its direction flag says.  (`C01`: the same for reads.) -/
+theorem C12_seek_forgets (s s' : CtrIO σ) (hr : s.reader = s'.reader) (hc : s.counter = s'.counter) (off whence : Int) :
+    ((CtrIO.seek F s off whence).map (fun x => (x.1, x.2.reader, x.2.counter, x.2.cipher)) =
+     (CtrIO.seek F s' off whence).map (fun x => (x.1, x.2.reader, x.2.counter, x.2.cipher))) ∧
+    (∀ (t : CtrIO σ), t.cipher = none → ∀ (b : Bool) (n : Int) (w : Bytes),
+      CtrIO.read F E { t with cipherDec := b } n = CtrIO.read F E t n ∧
+      CtrIO.write F E { t with cipherDec := b } w = CtrIO.write F E t w) :=
+  ⟨CtrIO.seek_forgets F s s' hr hc off whence,
+   fun t ht b n w => ⟨CtrIO.read_no_cipher F E t ht b n, CtrIO.write_no_cipher F E t ht b w⟩⟩
 
 end Pyctr.C12
